@@ -3,6 +3,7 @@ mod c02;
 mod extract;
 mod c03;
 mod c04;
+mod c04m;
 mod c05;
 mod c06;
 mod c07;
@@ -81,6 +82,7 @@ fn main() {
         "c02" => c02::main(rest),
         "c03" => c03::main(rest),
         "c04" => c04::main(rest),
+        "c04m" => c04m::main(rest),
         "c05" => c05::main(rest),
         "consts" => consts::main(rest),
         "c06" => c06::main(rest),
